@@ -105,7 +105,7 @@ func c20Run(x *core.Ctx) {
 			c := core.NewCase("parse", "grammar", r.Pick("query", "schema"), "src", b.String())
 			x.Do(c, func() { c20Check(x, c) })
 		case 3:
-			items := tsys.Schema(r, &tsys.GenOpts{Descs: i%2 == 0, Hostile: i%4 == 0, Extensions: true, Small: true})
+			items := tsys.Schema(r, &tsys.GenOpts{Descs: i%2 == 0, Hostile: i%4 == 0, Extensions: true, ExtOnly: i%10 >= 5, Small: true})
 			all := append(append([]tsys.Fault{}, tsys.Faults...), tsys.ExtraFaults...)
 			if out, _, ok := all[r.Intn(len(all))].Inject(r, tsys.CloneItems(items)); ok {
 				items = out
@@ -426,6 +426,20 @@ func c20Check(x *core.Ctx, c *core.Case) {
 			c20Error(x, "validate", e, []string{"request.graphql"}, true)
 		}
 		c20List(x, "validate", errs)
+		// the exported rule variants without suggestions, passed explicitly: same obligations
+		if len(errs) > 0 {
+			var variants []validator.Rule
+			for _, std := range []string{"FieldsOnCorrectType", "KnownArgumentNames", "KnownTypeNames", "ValuesOfCorrectType"} {
+				variants = append(variants, c18Variants[std])
+			}
+			doc3, _ := parser.ParseQuery(&ast.Source{Name: "request.graphql", Input: c.Get("doc")})
+			errs3 := validator.Validate(schema, doc3, variants...)
+			x.Count("variant_rule_validations")
+			for _, e := range errs3 {
+				c20Error(x, "validate-without-suggestions", e, []string{"request.graphql"}, true)
+			}
+			c20List(x, "validate-without-suggestions", errs3)
+		}
 		// the same after a registered rule was replaced (by itself) in the global rule set: errors must still name their rule
 		if len(errs) > 0 {
 			ri := int(core.HashString(c.Get("doc")) % uint64(len(c18Standard)))
